@@ -2,6 +2,7 @@ package props
 
 import (
 	"fmt"
+	"strings"
 	"testing"
 
 	netty "github.com/go-netty/go-netty"
@@ -192,7 +193,7 @@ func compareTraces(r *e3Rig, m *e3Model, real []e3Ev, from int, what string, sig
 	n := imin(len(real), len(model))
 	for i := from; i < n; i++ {
 		a, b := real[i], model[i]
-		if a.H != b.H || (a.H >= 0 && a.Kind != b.Kind) || a.Msg != b.Msg {
+		if a.H != b.H || (a.H >= 0 && a.Kind != b.Kind) || !msgMatches(a.Msg, b.Msg) {
 			lo := imax(from, i-3)
 			return core.Viol(sigPrefix+"/trace-differs", "%s: step %d of %d/%d: real %s, model %s; context real [%s] model [%s]", what, i-from, len(realTail), len(modelTail), a, b, render(real[lo:imin(len(real), i+3)]), render(model[lo:imin(len(model), i+3)]))
 		}
@@ -203,7 +204,7 @@ func compareTraces(r *e3Rig, m *e3Model, real []e3Ev, from int, what string, sig
 	}
 	for i := from; i < len(real); i++ {
 		a, b := real[i], model[i]
-		if a.H != b.H || (a.H >= 0 && a.Kind != b.Kind) || a.Msg != b.Msg {
+		if a.H != b.H || (a.H >= 0 && a.Kind != b.Kind) || !msgMatches(a.Msg, b.Msg) {
 			return core.Viol(sigPrefix+"/trace-differs", "%s: step %d real %s, model %s; real [%s] model [%s]", what, i-from, a, b, render(realTail), render(modelTail))
 		}
 		if a.H >= 0 {
@@ -217,6 +218,19 @@ func compareTraces(r *e3Rig, m *e3Model, real []e3Ev, from int, what string, sig
 		}
 	}
 	return nil
+}
+
+// msgMatches compares a real payload id with the model's. The model leaves open what the statement leaves open:
+// "x:*" is any exception (e.g. the error a write on a closed channel is refused with), "x:~text" an exception whose
+// message contains text (a panic value that is not an error is converted, the conversion is not specified).
+func msgMatches(real, model string) bool {
+	switch {
+	case model == "x:*":
+		return strings.HasPrefix(real, "x:")
+	case strings.HasPrefix(model, "x:~"):
+		return strings.HasPrefix(real, "x:") && strings.Contains(real, model[3:])
+	}
+	return real == model
 }
 
 func (r *e3Rig) installWireProbes() {
